@@ -89,6 +89,7 @@ type Exec struct {
 	entryPC      int
 	atCallArgs   []Value
 	topFreeVars  []Value
+	linkSeen     map[string]bool
 }
 
 func newExec(w *World, fn *ssa.Function, sel string, con *Contract) *Exec {
@@ -455,6 +456,9 @@ func (ex *Exec) store(st *State, p *PtrV, v Term, site ssa.Instruction) {
 	if p.FreeVar {
 		fresh = tFalse
 	}
+	if ex.w.immutable[structKey(p.Root)] && site != nil {
+		ex.oblige(st, "immut", "", site, fresh, "fields of immutable type "+structKey(p.Root)+" are written only on an object allocated in this activation")
+	}
 	if ex.isModelStruct(p.Root) {
 		if len(p.Path) == 0 {
 			sd := structOf(p.Root)
@@ -757,6 +761,11 @@ func (ex *Exec) step(st *State, in ssa.Instruction) {
 		p := &PtrV{Base: r, Root: et}
 		// zero-initialise
 		ex.storeNoFrame(st, p, ex.zero(et))
+		if isNamed(et, "bytes", "Buffer") {
+			// a new buffer used as an io.Writer has accepted nothing yet
+			h := ex.heap(st, "W$total", arraySort(SVal, SStr))
+			st.assume(eq(sel(h, ex.w.box(in.Type(), r, ex.d), SStr), mk(SStr, "str_empty")))
+		}
 		fr.env[in] = p
 	case *ssa.UnOp:
 		fr.env[in] = ex.unop(st, in)
